@@ -5,6 +5,7 @@ PROPERTY THEOREMS ONLY (helper lemmas live in Hts.Lemmas.*).  Every statement qu
 -/
 import Hts.Lemmas.Itf8
 import Hts.Lemmas.Itf8Spec
+import Hts.Lemmas.CramStream
 namespace Hts.Props.C20
 open Hts.Model
 
@@ -83,10 +84,46 @@ theorem ltf8_decode_reads_announced (b0 : BitVec 8) (t : List (BitVec 8))
     Ltf8.decode ((b0 :: t).take (Ltf8.width b0).toNat) = Ltf8.decode (b0 :: t) :=
   Ltf8.decode_take b0 t h
 
+/-! ### the stream readers of cram/cram.go (errorReader.itf8 / ltf8) -/
+
+/-- an encoded number followed by anything reads back as that number, leaving exactly the rest -/
+theorem itf8_stream_roundtrip (v : BitVec 32) (rest : List (BitVec 8)) :
+    CramStream.itf8 (Itf8.encode v ++ rest) = .ok (v, rest) :=
+  Hts.Lemmas.CramStream.Itf8S.stream_roundtrip v rest
+
+/-- with the announced bytes available the reader consumes exactly them (never more) and never reports
+"failed to decode" -/
+theorem itf8_stream_consumes_announced (b0 : BitVec 8) (t : List (BitVec 8))
+    (h : Itf8.width b0 ≤ ((t.length + 1 : Nat) : Int)) :
+    CramStream.itf8 (b0 :: t) =
+      .ok ((Itf8.decode ((b0 :: t).take (Itf8.width b0).toNat)).1, (b0 :: t).drop (Itf8.width b0).toNat) :=
+  Hts.Lemmas.CramStream.Itf8S.stream_consumes b0 t h
+
+/-- a stream cut inside a number is an error, never a value -/
+theorem itf8_stream_short_fails (b0 : BitVec 8) (t : List (BitVec 8))
+    (h : ((t.length + 1 : Nat) : Int) < Itf8.width b0) : ∃ e, CramStream.itf8 (b0 :: t) = .error e :=
+  Hts.Lemmas.CramStream.Itf8S.stream_short b0 t h
+
+theorem ltf8_stream_roundtrip (v : BitVec 64) (rest : List (BitVec 8)) :
+    CramStream.ltf8 (Ltf8.encode v ++ rest) = .ok (v, rest) :=
+  Hts.Lemmas.CramStream.Ltf8S.stream_roundtrip v rest
+
+theorem ltf8_stream_consumes_announced (b0 : BitVec 8) (t : List (BitVec 8))
+    (h : Ltf8.width b0 ≤ ((t.length + 1 : Nat) : Int)) :
+    CramStream.ltf8 (b0 :: t) =
+      .ok ((Ltf8.decode ((b0 :: t).take (Ltf8.width b0).toNat)).1, (b0 :: t).drop (Ltf8.width b0).toNat) :=
+  Hts.Lemmas.CramStream.Ltf8S.stream_consumes b0 t h
+
+theorem ltf8_stream_short_fails (b0 : BitVec 8) (t : List (BitVec 8))
+    (h : ((t.length + 1 : Nat) : Int) < Ltf8.width b0) : ∃ e, CramStream.ltf8 (b0 :: t) = .error e :=
+  Hts.Lemmas.CramStream.Ltf8S.stream_short b0 t h
+
 /-! ### non-vacuity: concrete non-trivial instances (these are tests, not the claim) -/
 example : Itf8.encode 0x12345678#32 = [0xf1#8, 0x23#8, 0x45#8, 0x67#8, 0x78#8] := by decide
 example : Itf8.decode [0xf1#8, 0x23#8, 0x45#8, 0x67#8, 0x78#8, 0xaa#8] = (0x12345678#32, 5, true) := by decide
 example : Itf8.width 0xf1#8 ≤ ((4 + 1 : Nat) : Int) := by decide
 example : (Ltf8.encode 0xffffffffffffffff#64).length = 9 := by decide
+example : CramStream.itf8 [0xf1#8, 0x23#8, 0x45#8, 0x67#8, 0x78#8, 0xaa#8] = .ok (0x12345678#32, [0xaa#8]) := by rfl
+example : CramStream.ltf8 [0xff#8, 1#8, 2#8] = .error .unexpectedEOF := by rfl
 
 end Hts.Props.C20
